@@ -84,6 +84,12 @@ def inGrammar (d : Date) (h mi s : Int) (nd : Nat) (frac : Int) (oh om : Int) : 
   validDate d && decide (1 ≤ d.y ∧ d.y ≤ 9999 ∧ 0 ≤ h ∧ h < 24 ∧ 0 ≤ mi ∧ mi < 60 ∧ 0 ≤ s ∧ s < 60 ∧
     nd ≤ 9 ∧ 0 ≤ frac ∧ frac < 10 ^ nd ∧ 0 ≤ oh ∧ oh < 24 ∧ 0 ≤ om ∧ om < 60)
 
+/-- the quantifier is over EPOCHS of the calendar years 0001-9999: a text whose WRITTEN (local) date is 0000-12-31 (RFC 3339
+    allows year 0000) with a negative offset that carries it past midnight denotes an epoch of 0001-01-01 and is inside it -/
+def inGrammarYear0 (d : Date) (h mi s : Int) (nd : Nat) (frac : Int) (neg : Bool) (oh om : Int) : Bool :=
+  neg && decide (d.y = 0 ∧ d.m = 12 ∧ d.d = 31 ∧ 0 ≤ h ∧ h < 24 ∧ 0 ≤ mi ∧ mi < 60 ∧ 0 ≤ s ∧ s < 60 ∧
+    nd ≤ 9 ∧ 0 ≤ frac ∧ frac < 10 ^ nd ∧ 0 ≤ oh ∧ oh < 24 ∧ 0 ≤ om ∧ om < 60 ∧ h * 60 + mi + oh * 60 + om ≥ 1440)
+
 /-! ### second = 60 (RFC 3339 §5.7: "60 is only allowed at the end of months in which a leap second occurs")
 
   `:60` labels an INSERTED second, and the label is that of the scale's own clock: with a written offset
